@@ -29,11 +29,26 @@ pub enum Form {
     GuardAsync,
     /// `#[emit::span(rt, err_lvl: .., ..)] async fn -> Result`; odd nodes return `Err`
     ResultAsync,
+    /// the span's OWN frame (from `new_span!`) is moved to a fresh thread and entered there with
+    /// `frame.call(..)`; the guard is started and completed there
+    HandoffCall,
+    /// `thread::spawn(frame.in_fn(..))` with the span's own frame; guard started and completed there
+    HandoffInFn,
+    /// the span's own frame is entered on a fresh thread (`frame.enter()`), the guard is started there,
+    /// comes back with the frame and is completed on the parent thread inside `frame.enter()` again
+    HandoffEnterBack,
+    /// `frame.in_future(async move { guard.start(); ..; guard.complete() })` with the span's own frame,
+    /// whose polls alternate between fresh threads and the awaiting thread
+    HandoffFuture,
 }
 
 impl Form {
     pub fn is_async(self) -> bool {
-        matches!(self, Form::AsyncFn | Form::ManualFuture | Form::GuardAsync | Form::ResultAsync)
+        matches!(self, Form::AsyncFn | Form::ManualFuture | Form::GuardAsync | Form::ResultAsync | Form::HandoffFuture)
+    }
+    /// the frame returned by `new_span!` itself travels to another thread
+    pub fn is_handoff(self) -> bool {
+        matches!(self, Form::HandoffCall | Form::HandoffInFn | Form::HandoffEnterBack | Form::HandoffFuture)
     }
     pub fn label(self) -> &'static str {
         match self {
@@ -47,6 +62,10 @@ impl Form {
             Form::AsyncFn => "form:async-fn",
             Form::ManualFuture => "form:manual-future",
             Form::GuardAsync => "form:guard-async",
+            Form::HandoffCall => "form:handoff-call",
+            Form::HandoffInFn => "form:handoff-in-fn",
+            Form::HandoffEnterBack => "form:handoff-enter-back",
+            Form::HandoffFuture => "form:handoff-future",
         }
     }
 }
@@ -178,6 +197,9 @@ pub struct Stats {
     pub hops_future: usize,
     pub joins_carry: usize,
     pub joins_migrating: usize,
+    pub handoffs: usize,
+    pub handoff_enabled_with_descendants: bool,
+    pub handoff_disabled_with_descendants: bool,
     pub events: usize,
     pub events_in_disabled: bool,
     pub async_nodes: usize,
@@ -279,12 +301,26 @@ impl Numberer {
                 let inner = if n.enabled { Scope { span: Some(id), base: w.scope.base } } else { w.scope };
                 let pre = self.check(inner);
                 let before = self.spans.len();
+                let events_before = self.events.len();
                 let items = self.items(
                     &n.items,
                     Where { scope: inner, depth, in_async: n.form.is_async(), in_disabled: !n.enabled },
                 );
-                if !n.enabled && self.spans[before..].iter().any(|s| s.enabled) {
+                let enabled_below = self.spans[before..].iter().any(|s| s.enabled);
+                if !n.enabled && enabled_below {
                     self.stats.disabled_with_enabled_descendant = true;
+                }
+                if n.form.is_handoff() {
+                    self.stats.handoffs += 1;
+                    // something below that has to find the ids ABOVE this node through this node's own frame
+                    let content = enabled_below || self.events.len() > events_before;
+                    let something_above = w.scope.span.is_some() || w.scope.base;
+                    if content && n.enabled {
+                        self.stats.handoff_enabled_with_descendants = true;
+                    }
+                    if content && !n.enabled && something_above {
+                        self.stats.handoff_disabled_with_descendants = true;
+                    }
                 }
                 let post = self.check(w.scope);
                 PItem::Span(PNode { id, form: n.form, enabled: n.enabled, mdl, items, pre, post })
